@@ -837,7 +837,7 @@ RULE = ('ragged label trees of depth 2-4 generated from nested fan-out shapes (f
 
 def run(repo, task):
     tier = task.get('tier', 'quick')
-    rep = Rep('C05-hierarchy', task, rule=RULE,
+    rep = Rep('C05-hierarchy', task, rule=RULE + ' Added: after every grow-only history, before any view of the grown index is read, the indices derived from it (IndexHierarchy(go), IndexHierarchyGO(go), copy, rename) must present the same tuples.',
               bound=('all 39 depth-2 shapes x 2 label patterns, 45 depth-3 shapes, 6 depth-4 shapes; <= 13 x 13 selector options at depth 2, 6-8 per depth at depth 3, 4-6 at depth 4'
                      if tier == 'quick' else 'all 39 depth-2 shapes x 12 label patterns, 417 depth-3 shapes, 31 depth-4 shapes; <= 13 x 17 selector options at depth 2, 6-8 per depth at depth 3, 4-8 at depth 4'))
     rep.assumptions.add('a label slice at a level is only demanded when both end points exist in every node the outer selectors reach (otherwise LocInvalid is raised)')
